@@ -64,6 +64,7 @@ static struct AssignedIdentifier *saved_aid;
 
 static asn1p_value_t *_convert_bitstring2binary(char *str, int base);
 static void _fixup_anonymous_identifier(asn1p_expr_t *expr);
+static asn1p_expr_t *_innermost_collection_member(asn1p_expr_t *expr);
 
 static asn1p_module_t *currentModule;
 #define	NEW_EXPR()	(asn1p_expr_new(yylineno, currentModule))
@@ -1289,8 +1290,9 @@ DefinedUntaggedType:
 		 */
 		if($$->expr_type == ASN_CONSTR_SEQUENCE_OF
 		|| $$->expr_type == ASN_CONSTR_SET_OF) {
-			assert(!TQ_FIRST(&($$->members))->constraints);
-			TQ_FIRST(&($$->members))->constraints = $2;
+			asn1p_expr_t *memb = _innermost_collection_member($$);
+			assert(!memb->constraints);
+			memb->constraints = $2;
 		} else {
 			if($$->constraints) {
 				assert(!$2);
@@ -1312,8 +1314,9 @@ UntaggedType:
 		 */
 		if($$->expr_type == ASN_CONSTR_SEQUENCE_OF
 		|| $$->expr_type == ASN_CONSTR_SET_OF) {
-			assert(!TQ_FIRST(&($$->members))->constraints);
-			TQ_FIRST(&($$->members))->constraints = $2;
+			asn1p_expr_t *memb = _innermost_collection_member($$);
+			assert(!memb->constraints);
+			memb->constraints = $2;
 		} else {
 			if($$->constraints) {
 				assert(!$2);
@@ -1336,8 +1339,9 @@ MaybeIndirectTaggedType:
 		 */
 		if($$->expr_type == ASN_CONSTR_SEQUENCE_OF
 		|| $$->expr_type == ASN_CONSTR_SET_OF) {
-			assert(!TQ_FIRST(&($$->members))->constraints);
-			TQ_FIRST(&($$->members))->constraints = $3;
+			asn1p_expr_t *memb = _innermost_collection_member($$);
+			assert(!memb->constraints);
+			memb->constraints = $3;
 		} else {
 			if($$->constraints) {
 				assert(!$2);
@@ -2586,6 +2590,20 @@ _convert_bitstring2binary(char *str, int base) {
  * generate some sort of interim names, to not to force human being to fix
  * the specification's compliance to modern ASN.1 standards.
  */
+/*
+ * In SEQUENCE OF SEQUENCE OF Type (Constraint) the constraint belongs to Type,
+ * not to the nested SEQUENCE OF.
+ */
+static asn1p_expr_t *
+_innermost_collection_member(asn1p_expr_t *expr) {
+	asn1p_expr_t *memb = TQ_FIRST(&(expr->members));
+	while((memb->expr_type == ASN_CONSTR_SEQUENCE_OF
+		|| memb->expr_type == ASN_CONSTR_SET_OF)
+	&& TQ_FIRST(&(memb->members)))
+		memb = TQ_FIRST(&(memb->members));
+	return memb;
+}
+
 static void
 _fixup_anonymous_identifier(asn1p_expr_t *expr) {
 	char *p;
